@@ -277,6 +277,12 @@ func (s *Swarm) merge(buf []byte) (mesh.GossipData, error) {
 		return nil, err
 	}
 
+	// Remember which of the incoming subscriptions we currently consider active
+	active := make(map[string]bool)
+	other.Subscriptions(func(ev *event.Subscription, _ event.Value) {
+		active[ev.Key()] = s.state.Has(ev)
+	})
+
 	// Merge and get the delta
 	delta := s.state.Merge(other)
 	other.Subscriptions(func(ev *event.Subscription, v event.Value) {
@@ -288,13 +294,19 @@ func (s *Swarm) merge(buf []byte) (mesh.GossipData, error) {
 		key := ev.Key()
 		peer := s.findPeer(mesh.PeerName(ev.Peer))
 
+		// The delta only tells us which times have advanced, whether the subscription
+		// is now on or off is decided by the merged state. Only a change of that counts,
+		// otherwise re-delivered, re-ordered or combined updates would be counted twice
+		// or would undo the subscription of another connection of the same peer.
+		wasActive, isActive := active[key], s.state.Has(ev)
+
 		// If the subscription is added, notify (TODO: use channels)
-		if v.IsAdded() && peer.onSubscribe(key, ev.Ssid) && peer.IsActive() {
+		if isActive && !wasActive && peer.onSubscribe(key, ev.Ssid) && peer.IsActive() {
 			s.OnSubscribe(peer, ev)
 		}
 
 		// If the subscription is removed, notify (TODO: use channels)
-		if v.IsRemoved() && peer.onUnsubscribe(key, ev.Ssid) && peer.IsActive() {
+		if !isActive && wasActive && peer.onUnsubscribe(key, ev.Ssid) && peer.IsActive() {
 			s.OnUnsubscribe(peer, ev)
 		}
 	})
